@@ -4316,3 +4316,34 @@ B("SWP-C14-bounce-returns-before-requeue", "C14", "C14:R-C14.10:worker_pool::wor
                 }
                 ctx.sender.send(WorkerMessage::Compact(keyspace)).ok();
                 return Ok(false);""")
+
+# ---- repair 44; the drop context it changed
+_override("C17-drop-forgets-keyspaces-clear", [(DB,
+  """        self.supervisor
+            .keyspaces
+            .write()
+            .unwrap_or_else(std::sync::PoisonError::into_inner)
+            .clear();
+        self.supervisor
+            .journal_manager""",
+  """        self.supervisor
+            .journal_manager""")])
+B("F44-C17-drop-expects-the-keyspaces-lock", "C17", "C17:R-C17.16:<db::DatabaseInner as std::ops::Drop>::drop:drop-does-not-panic-on-a-poisoned-lock", DB,
+  """            .keyspaces
+            .write()
+            .unwrap_or_else(std::sync::PoisonError::into_inner)
+            .clear();""",
+  """            .keyspaces
+            .write()
+            .expect("lock is poisoned")
+            .clear();""")
+E("EQ-C17-drop-matches-on-the-lock-result", DB,
+  """        self.supervisor
+            .journal_manager
+            .write()
+            .unwrap_or_else(std::sync::PoisonError::into_inner)
+            .clear();""",
+  """        match self.supervisor.journal_manager.write() {
+            Ok(mut manager) => manager.clear(),
+            Err(poisoned) => poisoned.into_inner().clear(),
+        }""", props=["C17", "C10", "C13"])
